@@ -15,6 +15,7 @@ LEVEL = "exploration"
 CONTRACTS = True  # icontract postconditions on AlignedStream.read/peek/seek fire during this workload too
 STEP_BUDGET = 20_000_000  # line events per case; a case that exceeds it is reported as non-termination
 HANDLE_CLOSE_CHECK = True
+OPEN_INTERPOSE = True  # files the library opens by path (parents, extents, bundle images) are wrapped in observing proxies
 ANCHOR_FILES = ["dissect/hypervisor/disk/vmdk.py"]
 RULE = (
     "VMDK extents of the four kinds written by independent writers from a content model: hosted sparse KDMV "
